@@ -291,7 +291,10 @@ pub fn run(run: &Run) {
     );
     // erase-and-continue around the wrapper: quote(s) + consonant + every sign (a traditionally joined sign is two code
     // points for one key) + 1..4 backspaces + one more key, under all 16 option sets
-    let signs: Vec<String> = ["\u{09BE}", "\u{09BF}", "\u{09C0}", "\u{09C1}", "\u{09C2}", "\u{09C3}", "\u{09C7}", "\u{09C8}", "\u{09CB}", "\u{09CC}", "\u{0981}", "\u{09CD}\u{0995}"].iter().map(|s| s.to_string()).collect();
+    let signs: Vec<String> = ["\u{09BE}", "\u{09BF}", "\u{09C0}", "\u{09C1}", "\u{09C2}", "\u{09C3}", "\u{09C7}", "\u{09C8}", "\u{09CB}", "\u{09CC}", "\u{0981}", "\u{09CD}\u{0995}",
+        // more keys than code points: hasanta + sign makes ONE independent vowel, hasanta + length mark makes AU - when such a word
+        // is erased completely, nothing of its raw key text may be left for the next word
+        "\u{09CD}\u{09BF}", "\u{09CD}\u{09BE}", "\u{09CD}\u{09D7}"].iter().map(|s| s.to_string()).collect();
     let mut eitems: Vec<Case> = vec![];
     for lead in ["", "\"", "'", "(", "\"'"] {
         for c1 in ["\u{0995}", "\u{09B0}", "\u{09B8}"] {
